@@ -1,6 +1,6 @@
 CONSTANTS
   Chunks = 256
-  FullFor = {"F1", "F2", "F3", "F4", "F5", "F6", "F7", "F8"}
+  FullFor = {"F1", "F2", "F3", "F4", "F5", "F6", "F7", "F8", "F9"}
   FormerTree = FALSE
   Variants = {TRUE}
 INIT Init
